@@ -848,14 +848,23 @@ def record_history(rec, kind, ops, steps, start=0):
 # --------------------------------------------------------------------------
 
 def _initial_trees(rec):
+  """Checks the freshly constructed trees; returns the kinds that can be used."""
+  usable = []
   for kind in TREES:
+    w = HEAD + CLASS_A + (CLASS_B if kind == 'typed' else '') + TREES[kind]
     env = dict(_ENV_BASE)
-    exec(_SETUP_CODE[kind], env)  # pylint: disable=exec-used
+    try:
+      exec(_SETUP_CODE[kind], env)  # pylint: disable=exec-used
+    except Exception as e:  # pylint: disable=broad-except
+      rec.case('construction/raises', (kind,), False,
+               f'building tree {kind} raised {type(e).__name__}: {e}', w)
+      continue
+    usable.append(kind)
     for n, root in _roots(env):
       v = check_tree(root, n)
-      w = HEAD + CLASS_A + (CLASS_B if kind == 'typed' else '') + TREES[kind] + (v[0][3] if v else '')
       rec.case('construction' + (f'/{v[0][0]}' if v else ''), (kind, n), not v,
-               message=v[0][2] if v else '', witness=w)
+               message=v[0][2] if v else '', witness=w + (v[0][3] if v else ''))
+  return usable
 
 
 _SINGLE = {}
@@ -910,8 +919,7 @@ def drv_histories_exhaustive(tier, seed):
                 'core x core, non-core x core[seed%16::16] and the converse; '
                 'length 3: core[seed%8::8]^3')))
   with _Watchdog(10) as wd:
-    _initial_trees(rec)
-    for kind in TREES:
+    for kind in _initial_trees(rec):
       ops = alphabet(kind)
       core = [o for o in ops if o.core]
       if quick:
@@ -967,7 +975,7 @@ def drv_histories_random(tier, seed):
             'on the running code is kept with probability 5% only, so that '
             'histories get long; failing histories are shrunk greedily')
   with _Watchdog(10) as wd:
-    for kind in TREES:
+    for kind in _initial_trees(Recorder('C01', '', '')):
       ops = alphabet(kind)
       r = rng(seed, 'c01-random-' + kind)
       for _ in range(n):
